@@ -11,7 +11,7 @@ GROUP = "Fmt"
 META = {
     "group": "Fmt",
     "technique": "Coq proof of parse/print round trip for the formatter's expression grammar as an instance of the generic precedence-tier development (coq/SqlFmt/PrecClimb*), theorem on the comment cursor of print_comment.go, precedence table regenerated from tables.go on every run, vm_compute correspondence of model parser/printer with `ego fmt --ast` / `ego fmt`; oracle through the real binary on generated programs and the repository's .ego corpus (format succeeds, same run/test outcome, idempotent, comments kept)",
-    "text": "Theorems C05_expr_roundtrip / C05_reparse / C05_idempotent (every expression tree nested as the precedence table allows - in particular every tree the formatter's parser returns - is read back from its print as the same tree; any table without a repeated operator), C05_comments_kept (for every comment list and every sequence of leading/trailing emission requests the written comments are the comment list itself, in order), C05_old_minus_refuted ('- -x' was written '--x') are proved for all inputs over the model of identifiers, integer and string literals, prefix - !, the five binary levels and parentheses. partial: calls, selectors, index/slice, composite literals, function literals, types, all statement forms and headers (incl. the repaired composite-literal-in-header rule), directives and the tokenizer are checked through the real binary only (generated programs and the .ego corpus: formatting succeeds, outcome of ego test/run equal, fmt(fmt(x)) = fmt(x), comment multiset equal), not proved",
+    "text": "Theorems C05_expr_roundtrip / C05_reparse / C05_idempotent (every expression tree nested as the precedence table allows - in particular every tree the formatter's parser returns - is read back from its print as the same tree; any table without a repeated operator), C05_comments_kept (for every comment list and every sequence of leading/trailing emission requests the written comments are the comment list itself, in order), C05_if_ladder_roundtrip (an if / else-if ladder is read back with every rung's own init, condition and block), C05_old_minus_refuted ('- -x' was written '--x') are proved for all inputs over the model of identifiers, integer and string literals, prefix - !, the five binary levels and parentheses, and of ladder headers with opaque items. partial: calls, selectors, index/slice, composite literals, function literals, types, all statement forms and headers (incl. the repaired composite-literal-in-header rule), directives and the tokenizer are checked through the real binary only (generated programs and the .ego corpus: formatting succeeds, outcome of ego test/run equal, fmt(fmt(x)) = fmt(x), comment multiset equal, `ego fmt --ast` tree equal, ladder skeleton equal to the model's), not proved",
     "note": "Trusted: Coq kernel; hand-written model of parseBinary/parseUnary as a tier chain (extensionally compared with the real Pratt loop on every run); regex translator for binaryPrecedence; Python comment scanner and outcome normaliser (line numbers, paths, durations removed); the ego binary built from the working tree.",
 }
 
@@ -149,6 +149,38 @@ def gen_int_expr(rng, depth):
     return "(" + gen_int_expr(rng, depth - 1) + ")"
 
 
+FORMS_TEMPLATE = 'import "fmt"\nimport "strings"\n\ntype Pt struct {\n    x int\n    y int\n}\n\nfunc pair(a int) (int, string) {\n    return a * 2, "p"\n}\n\nfunc sum(nums ...int) int {\n    t := 0\n    for _, n := range nums {\n        t = t + n\n    }\n    return t\n}\n\n%(ladder)s\n@test "form: switch with init and tag"\n{\n    r := 0\n    switch k := %(k1)d * 2; k {\n    case 1, 2:\n        r = 1\n    case 6:\n        r = 6\n    default:\n        r = -1\n    }\n    fmt.Println("switch", r)\n    q := "?"\n    x := %(k2)d\n    switch {\n    case x > 5:\n        q = "big"\n    case x > 2:\n        q = "mid"\n    default:\n        q = "small"\n    }\n    fmt.Println(q)\n}\n\n@test "form: for init cond post, cond only, infinite with break, range index"\n{\n    t := 0\n    for i := %(k3)d; i <= 4; i = i + %(k4)d {\n        t = t + i\n    }\n    j := %(k5)d\n    for j > 7 {\n        j = j - 1\n        t = t + 100\n    }\n    n := 0\n    for {\n        n++\n        if n >= 3 {\n            break\n        }\n    }\n    for i := range []int{5, 6, 7} {\n        t = t + i * 1000\n    }\n    fmt.Println(t, j, n)\n}\n\n@test "form: labelled continue and break"\n{\n    c := 0\nouter:\n    for i := 0; i < 3; i = i + 1 {\n        for k := 0; k < 3; k = k + 1 {\n            if k == %(k6)d {\n                continue outer\n            }\n            if i == 2 {\n                break outer\n            }\n            c = c + 10 * i + k + 1\n        }\n    }\n    fmt.Println("labels", c)\n}\n\n@test "form: defer order and function literal"\n{\n    func run() string {\n        out := ""\n        defer func() {\n            out = out + "d1"\n        }()\n        defer func() {\n            out = out + "d2"\n        }()\n        out = "body"\n        return out\n    }\n    fmt.Println(run())\n}\n\n@test "form: multi-value assignment, op-assign, inc dec"\n{\n    a, b := %(k7)d, %(k8)d\n    a, b = b, a + b\n    v, s := pair(a)\n    v += 5\n    v -= 1\n    v *= 3\n    v /= 2\n    a++\n    b--\n    fmt.Println(a, b, v, s)\n}\n\n@test "form: variadic call, spread, index, slice, selector, struct literal"\n{\n    xs := []int{4, 5, 6, 7}\n    p := Pt{x: 3, y: 4}\n    m := map[string]int{"a": 1, "b": 2}\n    fmt.Println(sum(1, 2, 3), sum(xs...), xs[1], xs[1:3], p.x * p.y, m["b"], len(xs[:2]), strings.ToUpper("ab"))\n}\n\n@test "form: try catch and var const declarations"\n{\n    const k = 4\n    var w int = %(k9)d\n    var u, z = 1, "zz"\n    r := 0\n    try {\n        r = w / (k - 4)\n    } catch (e) {\n        r = -7\n        fmt.Println("caught", e != nil)\n    }\n    fmt.Println(r, u, z, k + w)\n}\n\n@test "form: go statement and channel send receive"\n{\n    ch := make(chan, 2)\n    go func(n int) {\n        ch <- n * 2\n    }(%(k10)d)\n    got := <-ch\n    fmt.Println("chan", got)\n}\n\n@test "form: nested if in else block, unary not, type assertion"\n{\n    var i interface{} = %(k11)d\n    n, ok := i.(int)\n    r := "x"\n    if !ok {\n        r = "no"\n    } else {\n        if q := n - 5; q == 0 {\n            r = "zero"\n        } else {\n            r = "nz"\n        }\n    }\n    fmt.Println(r)\n}\n'
+
+
+def gen_ladder(rng, i):
+    """an if / else-if ladder in which every rung can carry an init statement that shadows an outer variable; which
+    rung fires, and the value it prints, depend on each init being kept with its own rung"""
+    x = rng.choice([3, 8, 20, 50, 90])
+    rungs = rng.randint(2, 5)
+    lines = ['@test "form: else-if ladder %d"' % i, "{", "    x := %d" % x, "    y := %d" % rng.randint(0, 60), "    z := 1", '    r := ""']
+    for k in range(rungs):
+        v = rng.choice(["y", "y", "z"])
+        init = rng.choice(["%s := x %s %d; " % (v, rng.choice(["*", "+", "-", "/"]), rng.randint(1, 9)), ""]) if k or rng.random() < 0.7 else ""
+        if k >= 1 and rng.random() < 0.6:
+            init = "%s := x %s %d; " % (v, rng.choice(["*", "+", "-"]), rng.randint(1, 9))
+        cond = "%s %s %d" % (v, rng.choice([">", "<", ">=", "=="]), rng.choice([0, 5, 30, 55, 100, x, 2 * x]))
+        lines.append("    %sif %s%s {" % ("} else " if k else "", init, cond))
+        lines.append('        r = fmt.Sprintf("rung %d %%d %%d", y, z)' % k)
+    lines.append("    } else {")
+    lines.append('        r = fmt.Sprintf("else %d %d", y, z)')
+    lines += ["    }", "    fmt.Println(r, x, y, z)", "    @assert T.Equal(1, 1)", "}", ""]
+    return "\n".join(lines)
+
+
+def gen_forms(rng, i):
+    """one test file exercising every statement form the printer re-synthesises; each test prints values that
+    depend on the construct (init statements, labels, defers, multi-value assignment, ...) being preserved"""
+    vals = {"ladder": "\n".join(gen_ladder(rng, 10 * i + k) for k in range(4))}
+    for k, choices in enumerate([(1, 3, 5), (1, 4, 7), (0, 1, 2), (1, 2), (9, 10, 12), (0, 1, 2), (1, 2, 3), (2, 5), (3, 6), (21, 4), (5, 6)], 1):
+        vals["k%d" % k] = rng.choice(choices)
+    return FORMS_TEMPLATE % vals
+
+
 def gen_program(rng, i):
     e = lambda: gen_int_expr(rng, rng.randint(1, 3)).replace("% 0", "% 7")
     lits = rng.choice(["[]int{1, 2, 3}", "[]int{%s, %s}" % (e(), e()), "[]string{\"a\", \"b\"}", "[]P{{a: 1}, {a: 2}}",
@@ -255,7 +287,7 @@ def run(ck):
                "the ego binary built from the working tree by vf.build_ego", "correspondence evaluated by vm_compute in a generated cases file")
     okb, logb = vf.coq_build("SqlFmt")
     coq_ok = okb and ck.coq_stage(GROUP, theorems=["C05_expr_roundtrip", "C05_reparse", "C05_idempotent", "C05_comments_kept",
-                                                    "C05_table_ok", "C05_old_minus_refuted"], extra_q=("SqlFmt",))
+                                                    "C05_table_ok", "C05_old_minus_refuted", "C05_if_ladder_roundtrip"], extra_q=("SqlFmt",))
     if not okb:
         ck.coq_broken = ("SqlFmt", logb)
     ok, ego = vf.build_ego()
@@ -334,12 +366,75 @@ def run(ck):
                     ck.violation("expr-idempotent", "formatting the formatted expression batch again changes it", replay={"source": frag})
                     found[0] = True
 
+    # ---------------- (1b) if / else-if ladders: the real tree of the source (`--ast`) printed by the model = the
+    # keyword skeleton of the real formatted text
+    lcases = []
+    if replay is None or replay.get("ladders"):
+        nl = 25 if quick else 250
+        specs = replay["ladders"] if replay else [
+            {"inits": [rng.random() < 0.6 for _ in range(rng.randint(1, 5))], "else": rng.random() < 0.6} for _ in range(nl)]
+        srcs = []
+        for sp in specs:
+            t = ""
+            for k, has in enumerate(sp["inits"]):
+                t += "%sif %sc%d > %d {\n    r = %d\n}" % (" else " if k else "", "q%d := x + %d; " % (k, k) if has else "", k, k, k)
+            if sp["else"]:
+                t += " else {\n    r = -1\n}"
+            srcs.append(t + "\n")
+        lfrag = "".join(srcs)
+        rcl, ldump = ego_run(["fmt", "--fragment", "--ast"], inp=lfrag)
+        rct, ltext = ego_run(["fmt", "--fragment"], inp=lfrag)
+        lroot = parse_dump(ldump) if rcl == 0 else None
+        # split the formatted text into top-level statements: a ladder ends with a line that is exactly "}"
+        chunks, cur = [], []
+        for line in (ltext if rct == 0 else "").split("\n"):
+            if line.strip():
+                cur.append(line)
+                if line == "}":
+                    chunks.append(cur)
+                    cur = []
+        if rcl != 0 or rct != 0 or lroot is None or len(lroot[1]) != len(specs) or len(chunks) != len(specs):
+            ck.violation("ladder-batch", "ego fmt fails on generated if/else-if ladders or returns another number of statements: %s" % (
+                (ldump + ltext)[-300:]), replay={"ladders": specs[:3]}, found_input=False)
+        else:
+            def rungs_of(node):
+                """IfStmt dump node -> ([has_init...], has_else)"""
+                res = []
+                while True:
+                    ch = node[1]
+                    bi = next(i for i, c in enumerate(ch) if c[0] == "Block")
+                    res.append(bi == 2)
+                    rest = ch[bi + 1:]
+                    if not rest:
+                        return res, False
+                    if rest[0][0] == "IfStmt":
+                        node = rest[0]
+                        continue
+                    return res, True
+            for sp, node, chunk in zip(specs, lroot[1], chunks):
+                inits, els = rungs_of(node)
+                codes = []
+                for line in chunk:
+                    st = line.strip()
+                    m1 = re.match(r"^(\} else )?if (.*) \{$", st)
+                    if m1 and not line.startswith(" "):
+                        codes += ([2] if m1.group(1) else []) + [1] + ([4, 3] if ";" in m1.group(2) else []) + [5, 6]
+                    elif st == "} else {" and not line.startswith(" "):
+                        codes += [2, 6]
+                lcases.append((sp, inits, els, codes))
+                if inits != sp["inits"] or els != sp["else"]:
+                    ck.violation("ladder-parse", "the formatter's parser reads the ladder %r as inits=%r else=%r" % (sp, inits, els),
+                                 replay={"ladders": [sp]})
+                    found[0] = True
+
     # ---------------- (2) programs and corpus through the real binary (few processes: the machine is shared)
     files = []
     if replay is None or not replay.get("files"):
         if replay is None:
             for i, p in enumerate(CORPUS_PROGRAMS + [gen_program(rng, i) for i in range(12 if quick else 120)]):
                 files.append(("gen/gen%03d.ego" % i, as_test(p, i)))
+            for i in range(2 if quick else 25):
+                files.append(("gen/forms%03d.ego" % i, gen_forms(rng, i)))
             corpus = sorted(glob.glob(os.path.join(vf.REPO, "tests", "**", "*.ego"), recursive=True))
             pick = corpus if not quick else rng.sample(corpus, min(len(corpus), 40))
             for p in sorted(pick):
@@ -388,6 +483,7 @@ def run(ck):
     names = [n for n, _ in files]
     bad = fmt_all(dirs["f"], names)
     nontriv, nfmt = set(), 0
+    ntrees = [0]
 
     def test_lines(root):
         rc, out = ego_run(["test", "."], cwd=root, timeout=900)
@@ -433,6 +529,30 @@ def run(ck):
             lost = [c for c in ca if c not in cb][:3]
             ck.violation("comment-lost", "comments of %s change under ego fmt; missing/changed: %r" % (n, lost), replay=rep_of(n))
             found[0] = True
+    # the syntax tree of the formatted copy equals the tree of the original (positions aside): `ego fmt --ast`
+    def dumps(root):
+        rc, out = ego_run(["fmt", "--ast"] + [os.path.join(root, n) for n in good], timeout=900)
+        parts = re.split(r"(?m)^(?=File$)", re.sub(r"[ \t]+@\d+:\d+[ \t]*$", "", out, flags=re.M))
+        return rc, [x for x in parts if x.strip()]
+    if good:
+        d_o, d_f = dumps(dirs["o"]), dumps(dirs["f"])
+        if d_o[0] == 0 and len(d_o[1]) == len(good):
+            if d_f[0] != 0 or len(d_f[1]) != len(good):
+                ck.violation("tree-dump", "ego fmt --ast fails on the formatted copies", replay={"files": [{"name": n, "source": None} for n in good if not n.startswith("gen/")][:5]}, found_input=False)
+            else:
+                for n, a, b in zip(good, d_o[1], d_f[1]):
+                    if a != b:
+                        la, lb = a.split("\n"), b.split("\n")
+                        k = 0
+                        while k < min(len(la), len(lb)) and la[k] == lb[k]:
+                            k += 1
+                        ck.violation(known_cause(dict(files)[n]) or "tree-differs", "the syntax tree of %s changes under ego fmt: %r becomes %r" % (
+                            n, [x.strip() for x in la[k:k + 3]], [x.strip() for x in lb[k:k + 3]]), replay=rep_of(n))
+                        found[0] = True
+                ntrees[0] = len(good)
+        else:
+            ck.violation("tree-dump", "ego fmt --ast of the original files fails or returns %d trees for %d files" % (len(d_o[1]), len(good)),
+                         replay={"log": "rc %d" % d_o[0]}, found_input=False)
     rf = test_lines(dirs["f"]) if good else (0, [])
     nrun = len(good)
     if ro != rf:
@@ -459,6 +579,7 @@ def run(ck):
     ck.cov["input_distribution"] = {"expressions": len(exprs), "programs_generated": sum(1 for f in files if f[0].startswith("gen/")),
                                     "corpus_files": sum(1 for f in files if not f[0].startswith("gen/")),
                                     "tests_run_original": sum(1 for l in ro[1] if l.startswith("TEST:")),
+                                    "trees_compared": ntrees[0], "ladders": len(lcases),
                                     "formatted_ok": nfmt, "outcome_compared": nrun,
                                     "with_comments": sum(1 for f in files if comments_of(f[1]))}
     for e, t, rhs in ecases[8:11]:
@@ -487,10 +608,21 @@ def run(ck):
              "Open Scope N_scope.", "Definition gen_tbl : list (level sym) := %s." % coq_tbl(tiers),
              "Definition cases : list (list etok * eexpr * str) := ["]
     lines.append(";\n".join("(%s, %s, %s)" % (toks_coq(e), t, cstr(r)) for e, t, r in usable))
+    lines.append("].\nDefinition lcases : list (ladder * list N) := [")
+    def coq_ladder(inits, els):
+        rs = ["(mkRung %s %d %d)" % ("(Some %d)" % (3 * k) if h else "None", 3 * k + 1, 3 * k + 2) for k, h in enumerate(inits)]
+        return "(mkLadder %s [%s] %s)" % (rs[0], "; ".join(rs[1:]), "(Some 999)" if els else "None")
+    lines.append(";\n".join("(%s, %s)" % (coq_ladder(i, e), vf.vN(c)) for _, i, e, c in lcases))
     lines.append("""].
-Fixpoint idx {A} (f : nat -> A -> list nat) (i : nat) (l : list A) : list nat :=
+Definition ladderbad (i : nat) (c : ladder * list N) : list nat :=
+  one (forallb (fun p : N * N => N.eqb (fst p) (snd p)) (combine (List.map htok_code (print_ladder (fst c))) (snd c)) &&
+       Nat.eqb (List.length (print_ladder (fst c))) (List.length (snd c)) &&
+       match parse_ladder (print_ladder (fst c)) with Some (l, []) => true | _ => false end) i.
+""")
+    lines.insert(lines.index("Open Scope N_scope.") + 1, """Fixpoint idx {A} (f : nat -> A -> list nat) (i : nat) (l : list A) : list nat :=
   match l with [] => [] | x :: r => f i x ++ idx f (S i) r end.
-Definition one (b : bool) (i : nat) : list nat := if b then [] else [i].
+Definition one (b : bool) (i : nat) : list nat := if b then [] else [i].""")
+    lines.append("""
 Definition parsebad (i : nat) (c : list etok * eexpr * str) : list nat :=
   match eparse gen_tbl (fst (fst c)) with Some a => one (eexpr_eqb a (snd (fst c))) i | None => [i] end.
 Definition printbad (i : nat) (c : list etok * eexpr * str) : list nat :=
@@ -502,7 +634,8 @@ Definition modelbad (i : nat) (c : list etok * eexpr * str) : list nat :=
 """)
     okc, out = vf.coq_eval(GROUP, ck.work, "cases", "\n".join(lines),
                            {"obl": "one (wf_table str_eqb gen_tbl) 1%nat", "parsebad": "idx parsebad 0 cases",
-                            "printbad": "idx printbad 0 cases", "modelbad": "idx modelbad 0 cases"}, extra_q=("SqlFmt",))
+                            "printbad": "idx printbad 0 cases", "modelbad": "idx modelbad 0 cases",
+                            "ladderbad": "idx ladderbad 0 lcases"}, extra_q=("SqlFmt",))
     ck.add_obligations(1, 0)
     if not okc:
         ck.violation("correspondence-eval", "model evaluation failed:\n" + str(out)[-1500:], replay={"log": str(out)[-3000:]},
@@ -520,4 +653,9 @@ Definition modelbad (i : nat) (c : list etok * eexpr * str) : list nat :=
             e, t, r = usable[i]
             ck.violation("corr-" + key, "model and implementation disagree (%s) on %r: real prints %r" % (
                 what, " ".join(x for _, x in e), r), replay={"exprs": [e]}, found_input=found[0])
+    for i in out["ladderbad"][:3]:
+        sp, inits, els, codes = lcases[i]
+        ck.violation("corr-ladder", "the printer's if/else-if skeleton differs from the model's for a ladder with inits=%r else=%r "
+                     "(1 if, 2 else, 3 ';', 4 init, 5 cond, 6 block): real %r" % (inits, els, codes), replay={"ladders": [sp]})
+    ck.cov["input_distribution"]["ladders"] = len(lcases)
     shutil.rmtree(src_dir, ignore_errors=True)
